@@ -365,7 +365,11 @@ macro_rules! int_sweep {
                     }
                 }
             }
-            tasks.par_iter().for_each(|(pre, extend)| {
+            // `slow` = every single decoder call under the panic trap (used to locate the input after a task
+            // of the fast path has panicked); the fast path traps once per task, which also lets the
+            // non-termination watchdog see the thread as "inside the library"
+            let task = |pre: &Vec<u8>, extend: bool, slow: bool| {
+                let extend = &extend;
                 let mut local_e = 0u64;
                 let mut local_a = 0u64;
                 let lens: Vec<usize> = if *extend { (0..=max_len - 2).collect() } else { vec![0] };
@@ -378,15 +382,29 @@ macro_rules! int_sweep {
                         // reference
                         let mut d = Dec::new(&buf);
                         let want: Result<(i128, u128, usize), ErrKind> = d.varint($bits).map(|u| (unzigzag(u), u, d.pos));
-                        let got = postcard::take_from_bytes::<$ty>(&buf);
+                        let call = || postcard::take_from_bytes::<$ty>(&buf).map(|(g, rem)| (g, rem.len(), rem.as_ptr() as usize));
+                        let mut panicked = false;
+                        let got = if slow {
+                            match trap(call) {
+                                Ok(g) => g,
+                                Err(p) => {
+                                    ctx.violation(&format!("int-panic:{}", label), format!("decoder panicked: {p}"), local_e, json!({"type": stringify!($ty), "input": hex(&buf)}));
+                                    panicked = true;
+                                    Err(postcard::Error::DeserializeUnexpectedEnd)
+                                }
+                            }
+                        } else {
+                            call()
+                        };
                         match (&want, &got) {
-                            (Ok((sv, uv, c)), Ok((g, rem))) => {
+                            _ if panicked => {}
+                            (Ok((sv, uv, c)), Ok((g, rem_len, rem_ptr))) => {
                                 local_a += 1;
                                 let same = if $signed { *g as i128 == *sv } else { *g as u128 == *uv };
-                                if !same || rem.len() != buf.len() - c || rem.as_ptr() != unsafe { buf.as_ptr().add(*c) } {
+                                if !same || *rem_len != buf.len() - c || *rem_ptr != buf.as_ptr() as usize + *c {
                                     ctx.violation(
                                         &format!("int-value:{}", label),
-                                        format!("decoded {:?} rem {}, spec value {} consumed {}", g, rem.len(), if $signed { sv.to_string() } else { uv.to_string() }, c),
+                                        format!("decoded {:?} rem {}, spec value {} consumed {}", g, rem_len, if $signed { sv.to_string() } else { uv.to_string() }, c),
                                         local_e,
                                         json!({"type": stringify!($ty), "input": hex(&buf)}),
                                     );
@@ -408,7 +426,7 @@ macro_rules! int_sweep {
                                 local_e,
                                 json!({"type": stringify!($ty), "input": hex(&buf)}),
                             ),
-                            (Err(k), Ok((g, _))) => ctx.violation(
+                            (Err(k), Ok((g, _, _))) => ctx.violation(
                                 &format!("int-too-lax:{}", label),
                                 format!("accepted as {:?}, spec rejects with {:?}", g, k),
                                 local_e,
@@ -434,8 +452,15 @@ macro_rules! int_sweep {
                         }
                     }
                 }
-                evals.fetch_add(local_e, Ordering::Relaxed);
-                accepted.fetch_add(local_a, Ordering::Relaxed);
+                if slow || !std::thread::panicking() {
+                    evals.fetch_add(local_e, Ordering::Relaxed);
+                    accepted.fetch_add(local_a, Ordering::Relaxed);
+                }
+            };
+            tasks.par_iter().for_each(|(pre, extend)| {
+                if trap(|| task(pre, *extend, false)).is_err() {
+                    task(pre, *extend, true);
+                }
             });
             (evals.load(Ordering::Relaxed), accepted.load(Ordering::Relaxed))
         }
@@ -509,15 +534,15 @@ fn integer_readers(ctx: &Ctx) {
                 let mut d = Dec::new(buf);
                 let want = d.varint(128).map(|u| (u, d.pos));
                 let bad = if signed {
-                    match (postcard::take_from_bytes::<i128>(buf), &want) {
-                        (Ok((g, rem)), Ok((u, c))) => g != unzigzag(*u) || rem.len() != buf.len() - c,
-                        (Err(e), Err(k)) => map_err(&e) != *k,
+                    match (trap(|| postcard::take_from_bytes::<i128>(buf)), &want) {
+                        (Ok(Ok((g, rem))), Ok((u, c))) => g != unzigzag(*u) || rem.len() != buf.len() - c,
+                        (Ok(Err(e)), Err(k)) => map_err(&e) != *k,
                         _ => true,
                     }
                 } else {
-                    match (postcard::take_from_bytes::<u128>(buf), &want) {
-                        (Ok((g, rem)), Ok((u, c))) => g != *u || rem.len() != buf.len() - c,
-                        (Err(e), Err(k)) => map_err(&e) != *k,
+                    match (trap(|| postcard::take_from_bytes::<u128>(buf)), &want) {
+                        (Ok(Ok((g, rem))), Ok((u, c))) => g != *u || rem.len() != buf.len() - c,
+                        (Ok(Err(e)), Err(k)) => map_err(&e) != *k,
                         _ => true,
                     }
                 };
